@@ -65,13 +65,40 @@ def loop(req):
     return 'done'
 
 
-def chain_spec(depth):
-    """treespec of `depth` nested one-element lists around one leaf"""
+CHAIN_KINDS = ['list', 'tuple', 'dict', 'odict', 'ddict', 'deque', 'namedtuple', 'custom', 'mixed']
+
+
+def chain_spec(depth, kind='list'):
+    """treespec of `depth` nested one-child containers of `kind` around one leaf (deeper than the flatten
+    limit: composed from chains flatten accepts)"""
+    import collections
+    import universe
+
+    def wrap(t, k):
+        if k == 'list':
+            return [t]
+        if k == 'tuple':
+            return (t,)
+        if k == 'dict':
+            return {'k': t}
+        if k == 'odict':
+            return OrderedDict(k=t)
+        if k == 'ddict':
+            return defaultdict(int, k=t)
+        if k == 'deque':
+            return deque([t])
+        if k == 'namedtuple':
+            return universe.Single(t)
+        if k == 'custom':
+            return Box([t])
+        raise ValueError(k)
+    cycle = ['dict', 'list', 'ddict', 'custom', 'odict', 'tuple', 'deque', 'namedtuple']
+
     def chain(d):
         t = 0
-        for _ in range(d):
-            t = [t]
-        return optree.tree_structure(t)
+        for i in range(d):
+            t = wrap(t, cycle[i % len(cycle)] if kind == 'mixed' else kind)
+        return optree.tree_structure(t, namespace='c16')
     lim = optree.MAX_RECURSION_DEPTH
     if depth <= lim:
         return chain(depth)
